@@ -44,6 +44,8 @@ struct Sim {
     std::vector<std::string> kinds;           // block kinds of the menu
     std::vector<std::string> parents{"t0", "t1"};
     bool ev_flush{true}, ev_invalidate{true}, ev_reconsider{true}, ev_precious{false}, ev_headers{false};
+    bool ev_reconsider_any{false};            // R:x / R:s — ReconsiderBlock on an invalid-built block / side-branch head (clears its ancestors and descendants)
+    std::vector<std::string> tx_kinds;        // T:<kind> — submit the transactions of block kind <kind> (built on the tip) to the mempool
     int max_new_blocks{6};
     bool cursor_check{true};
     std::string pid;                          // property id for messages
@@ -269,6 +271,8 @@ struct Sim {
             if (n.height() > base_height - 1) ev.push_back("I:t1");
         }
         if (ev_reconsider && !invalidated_stack.empty()) ev.push_back("R");
+        if (ev_reconsider_any && !manually_invalid.empty()) { if (Select("x")) ev.push_back("R:x"); if (Select("s")) ev.push_back("R:s"); }
+        for (auto& k : tx_kinds) ev.push_back("T:" + k);
         if (ev_precious && Select("s")) ev.push_back("P:s");
         return ev;
     }
@@ -362,10 +366,16 @@ struct Sim {
             auto h = Select(e.substr(2));
             if (!h) return;
             if (n.Invalidate(*h)) { manually_invalid.insert(*h); invalidated_stack.push_back(*h); }
-        } else if (e == "R") {
-            if (invalidated_stack.empty()) return;
-            uint256 h = invalidated_stack.back();
-            invalidated_stack.pop_back();
+        } else if (e[0] == 'R') {
+            uint256 h;
+            if (e == "R") {
+                if (invalidated_stack.empty()) return;
+                h = invalidated_stack.back();
+            } else {
+                auto sel = Select(e.substr(2));
+                if (!sel) return;
+                h = *sel;
+            }
             n.Reconsider(h);
             // ResetBlockFailureFlags clears the flags of the block, its ancestors and descendants
             std::vector<uint256> cleared;
@@ -377,6 +387,12 @@ struct Sim {
             }
             for (auto& c : cleared) manually_invalid.erase(c);
             invalidated_stack.erase(std::remove_if(invalidated_stack.begin(), invalidated_stack.end(), [&](const uint256& x) { return !manually_invalid.count(x); }), invalidated_stack.end());
+        } else if (e[0] == 'T') {
+            // submit the transactions of block kind <kind> (as built on the current tip) to the mempool
+            CBlock b;
+            bool rule_invalid = false;
+            if (!BuildKind(e.substr(2), tip_before, b, rule_invalid)) return;
+            for (size_t i = 1; i < b.vtx.size(); i++) (void)n.SubmitTx(b.vtx[i]);
         } else if (e[0] == 'P') {
             auto h = Select(e.substr(2));
             if (h) n.Precious(*h);
@@ -444,6 +460,12 @@ struct Sim {
         for (auto& p : parts) k += p;
         for (auto& mi : manually_invalid) k += "I" + mi.ToString().substr(0, 16);
         for (auto& s : invalidated_stack) k += "S" + s.ToString().substr(0, 8);
+        if (!tx_kinds.empty()) {
+            std::vector<std::string> mp;
+            for (auto& info : n.pool().infoAll()) mp.push_back(info.tx->GetHash().ToString().substr(0, 16));
+            std::sort(mp.begin(), mp.end());
+            for (auto& m : mp) k += "M" + m;
+        }
         {
             LOCK(cs_main);
             k += "c" + std::to_string(n.cs().CoinsTip().GetCacheSize()) + "d" + std::to_string(n.cs().CoinsTip().GetDirtyCount());
